@@ -133,6 +133,14 @@ Theorem C20_mirror_settled : forall resp nf nb ls pid, let st := run resp (init 
   x_alive (px st pid) = t_alive (tg st pid) /\ x_groups (px st pid) = t_groups (tg st pid).
 Proof. exact net_mirror_settled. Qed.
 
+(* (4a) the exit of a live actor is always announced with a Terminate frame, whatever inbound
+   messages were handled before (the model has no "still advertised" condition on it); together
+   with (4) the proxy stops once the frame is processed *)
+Theorem C20_exit_announced : forall st pid,
+  t_alive (tg st pid) = true ->
+  In (FTerm pid) (ctl (do_exit st pid)) /\ t_alive (tg (do_exit st pid) pid) = false.
+Proof. exact exit_announced. Qed.
+
 (* (4'') after the session closed every proxy is stopped, in no group, sends to it fail (the state
    does not change, nothing is accepted), and this stays so whatever happens next *)
 Theorem C20_closed : forall resp nf nb ls pid, let st := run resp (init nf nb) ls in
@@ -265,3 +273,4 @@ Print Assumptions C20_mirror_settled.
 Print Assumptions C20_closed.
 Print Assumptions C20_oracle_sound.
 Print Assumptions C20_oracle_sound_proxy.
+Print Assumptions C20_exit_announced.
